@@ -320,6 +320,7 @@ func lookup(fr *frame, instr *ssa.Lookup, x, idx value) value {
 		if sk, isS := idx.(sym); isS {
 			idx = fr.concKey(instr.X.Type().Underlying().(*types.Map).Key(), sk)
 		}
+		idx = fr.resolveStrKey(x, idx)
 		v, ok := x.get(idx)
 		if !ok {
 			v = zero(instr.X.Type().Underlying().(*types.Map).Elem())
@@ -993,6 +994,7 @@ func callBuiltin(caller *frame, fn *ssa.Builtin, args []value) value {
 				k = caller.concKey(m.keyType, sk)
 			}
 			caller.i.x.noteMap(m, 2)
+			k = caller.resolveStrKey(m, k)
 			m.del(k)
 		default:
 			panic(fmt.Sprintf("illegal map type: %T", m))
